@@ -231,6 +231,34 @@ func c17(c *ev.Ctx) {
 			}
 		}
 	})
+	// (b2) case-insensitive means: the order does not depend on the case of the letters,
+	// whatever the members are - strings, arrays of strings, hashes, regexps. Two inputs that
+	// differ only in case (with keys that stay distinct when folded) come out in the same
+	// order; without the flag the order is that of the printed forms.
+	for gi, group := range [][2]string{
+		{`[["b"], ["C"], ["a"]]`, `[["B"], ["c"], ["A"]]`},
+		{`[["b", 1], ["C", 2], ["a", 3], ["D", 4]]`, `[["B", 1], ["c", 2], ["A", 3], ["d", 4]]`},
+		{`[{"k": "b"}, {"k": "C"}, {"k": "a"}]`, `[{"k": "B"}, {"k": "c"}, {"k": "A"}]`},
+		{`[/b/, /C/, /a/]`, `[/B/, /c/, /A/]`},
+		{`["b", ["C"], /a/, "D", ["e"]]`, `["B", ["c"], /A/, "d", ["E"]]`},
+		{`["b", "C", "a"]`, `["B", "c", "A"]`},
+		{`[["é"], ["Z"], ["a"]]`, `[["É"], ["z"], ["A"]]`},
+	} {
+		for _, fn := range []string{"sort", "reverse"} {
+			for _, noOpt := range []bool{false, true} {
+				id := fmt.Sprintf("fold-order/%d/%s/%v", gi, fn, noOpt)
+				if !c.Want(id) {
+					continue
+				}
+				script := fmt.Sprintf("a = %s; b = %s; x = %s(a, true); y = %s(b, true); p = %s(a); return [lower(string(x)) == lower(string(y)), len(x) == len(a), string(x), string(y), string(p), string(a)];", group[0], group[1], fn, fn, fn)
+				o := run(script, nil, nil, noOpt)
+				c.Case(script+fmt.Sprint(noOpt), true)
+				if !strings.HasPrefix(o.Desc(), "ARRAY:[true, true, ") {
+					c.Violation(id, fn+" with the case-insensitive flag", map[string]interface{}{"summary": fmt.Sprintf("%s gives %s %s: two inputs that differ only in the case of their letters must come out in the same order when the flag is set", script, o.Desc(), errText(o.Err)), "script": script})
+				}
+			}
+		}
+	}
 	// (c) join(split(s, d), d) == s
 	n = c.Pick(4000, 120000)
 	c.ParFor(n, func(i int) {
